@@ -128,6 +128,21 @@ with http_connect(P, client=client) as proxy:
         check("open;close;open", v, ["D-2"])
     print("   after leaving the with-block (exit-time DELETE):", live_tags())
 
+# ---------------------------------------------------------------------------------------------
+# Adjacent observation (NOT counted in the verdict above, not a clause of the C27 checker): the view's
+# token is right after every response here, but the view's `_closed` flag set by the close response
+# is never cleared by a later open, so leaving the block skips the best-effort DELETE and the second
+# session stays live until its TTL.
+with http_connect(P, client=client) as proxy:
+    registry.shutdown()
+    with proxy.with_session_token() as v:
+        v.s_open(tag="X1")
+        v.s_close()
+        v.s_open(tag="X2")
+        print(f"-- observation: open / close / open in three requests: token held={v.current_session_token() is not None}, live={live_tags()}, view._closed={v._closed}")
+    print(f"   after leaving the with-block: live={live_tags()}  (exit-time DELETE {'skipped' if live_tags() else 'sent'})")
+    registry.shutdown()
+
 print()
 if bad:
     print(f"DEFECT REPRODUCED: {bad} response(s) after which the client's view does not hold the token of the live session")
